@@ -132,7 +132,10 @@ def audit(pid):
     os.makedirs(os.path.join(BUILD, "audit"), exist_ok=True)
     af = os.path.join(BUILD, "audit", "Audit_%s_%d.lean" % (pid, os.getpid()))
     with open(af, "w") as fh:
-        fh.write("import MdVerif.Properties.%s\nopen MdVerif\n" % pid)
+        fh.write("import MdVerif.Properties.%s\n" % pid)
+        src = open(os.path.join(LEAN, "MdVerif", "Properties", pid + ".lean")).read()
+        for ns in ["MdVerif"] + re.findall(r"^namespace\s+(\S+)", src, flags=re.M):
+            fh.write("open %s\n" % ns)
         for n in names:
             fh.write("#print axioms %s\n" % n)
     rc, out, err = run(["lake", "env", "lean", af], cwd=LEAN, timeout=1200)
